@@ -51,6 +51,194 @@ let has_kind_changing_string (e : expr) : bool =
 
 let valid_utf8 (s : string) : bool = orc2.valid_utf8 (chars_of_string s)
 
+
+(* ---------- C02: the SQL text as PostgreSQL reads it (PgModel, extracted) ---------- *)
+let cmp_ops = ["="; "<"; ">"; "<="; ">="; "<>"; "~"]
+let rec sql_safe (a : ast) : bool =
+  match a with
+  | ABool (_, l) -> List.for_all sql_safe l
+  | ANot x -> sql_safe x
+  | AOp (op, l, r) -> List.mem (string_of_chars op) cmp_ops && sql_safe l && sql_safe r
+  | AIn (x, l) -> sql_safe x && List.for_all sql_safe l
+  | ABetween (x, lo, hi) -> sql_safe x && sql_safe lo && sql_safe hi
+  | ASimilar (x, p) -> sql_safe x && sql_safe p
+  | ACol _ | AStr _ | ANum _ | AParam _ -> true
+  | AUnary _ -> false
+let rec sql_cols (a : ast) : string list =
+  match a with
+  | ACol c -> [string_of_chars c]
+  | ABool (_, l) -> List.concat_map sql_cols l
+  | ANot x | AUnary (_, x) -> sql_cols x
+  | AOp (_, l, r) | ASimilar (l, r) -> sql_cols l @ sql_cols r
+  | AIn (x, l) -> sql_cols x @ List.concat_map sql_cols l
+  | ABetween (x, l, h) -> sql_cols x @ sql_cols l @ sql_cols h
+  | _ -> []
+let rec sql_strs (a : ast) : string list =
+  match a with
+  | AStr c -> [string_of_chars c]
+  | ABool (_, l) -> List.concat_map sql_strs l
+  | ANot x | AUnary (_, x) -> sql_strs x
+  | AOp (_, l, r) | ASimilar (l, r) -> sql_strs l @ sql_strs r
+  | AIn (x, l) -> sql_strs x @ List.concat_map sql_strs l
+  | ABetween (x, l, h) -> sql_strs x @ sql_strs l @ sql_strs h
+  | _ -> []
+let rec sql_params (a : ast) : int =
+  match a with
+  | AParam _ -> 1
+  | ABool (_, l) -> List.fold_left (fun n x -> n + sql_params x) 0 l
+  | ANot x | AUnary (_, x) -> sql_params x
+  | AOp (_, l, r) | ASimilar (l, r) -> sql_params l + sql_params r
+  | AIn (x, l) -> sql_params x + List.fold_left (fun n x -> n + sql_params x) 0 l
+  | ABetween (x, l, h) -> sql_params x + sql_params l + sql_params h
+  | _ -> 0
+
+let replace_all (s : string) (c : char) (by : string) : string =
+  let b = Buffer.create (String.length s) in String.iter (fun x -> if x = c then Buffer.add_string b by else Buffer.add_char b x) s; Buffer.contents b
+
+(* ? outside double-quoted identifiers and outside string constants -> $1, $2, ... (PostgreSQL has no ? token) *)
+let number_placeholders (s : string) : string * int =
+  let b = Buffer.create (String.length s + 16) in
+  let n = ref 0 and inq = ref false and ins = ref false in
+  String.iter (fun c ->
+    if c = '"' && not !ins then inq := not !inq;
+    if c = '\'' && not !inq then ins := not !ins;
+    if c = '?' && not !inq && not !ins then begin incr n; Buffer.add_string b ("$" ^ string_of_int !n) end else Buffer.add_char b c) s;
+  (Buffer.contents b, !n)
+
+(* texts the query's terminal tokens denote (fields and values), from the implementation's own token stream *)
+let token_texts (toks_field : string) : string list * string list =
+  let toks = List.filter_map (fun s -> try Some (parse_tok s) with _ -> None) (String.split_on_char ' ' toks_field) in
+  let terms = List.filter (fun (t : token) -> List.mem t.typ [TLiteral; TQuoted; TRegexp]) toks in
+  let plain = ref [] and pats = ref [] in
+  List.iter (fun t -> match parse_literal orc t with
+    | E (VStr s, Literal, _, _, _) -> plain := string_of_chars s :: !plain
+    | E (VStr s, (Wild | Regexp), _, _, _) ->
+        let raw = string_of_chars s in
+        pats := raw :: replace_all (replace_all raw '*' "%") '?' "_" :: !pats
+    | _ -> ()) terms;
+  (!plain, !pats)
+
+let check_sql (which : string) (x : qobs) input (sql : string) (nparams : int option) (kcls : (string * string) list) =
+  checked "C02";
+  let (text, n) = match nparams with Some _ -> number_placeholders sql | None -> (sql, 0) in
+  match pg_read (chars_of_string text) with
+  | None -> fail "C02" (which ^ ":not-one-boolean-expression-for-PostgreSQL") input [("sql", sql)]
+  | Some a ->
+      nontrivial "C02";
+      if not (sql_safe a) then fail "C02" (which ^ ":construct-outside-the-allowed-set") input [("sql", sql)];
+      let (plain, pats) = token_texts x.o.(0) in
+      let fields = x.df :: plain @ pats in
+      List.iter (fun c ->
+        if not (List.mem c fields) then begin
+          let cls = if List.exists (fun f -> String.length f > 63 && String.length c <= 63 && starts_with f c) fields then [("class", "K9")] else [] in
+          fail "C02" (which ^ ":column-is-not-a-field-of-the-query") input ([("sql", sql); ("column", c)] @ cls)
+        end) (sql_cols a);
+      List.iter (fun s ->
+        if not (List.mem s plain || List.mem s pats) then fail "C02" (which ^ ":string-constant-is-not-a-value-of-the-query") input [("sql", sql); ("constant", s)]) (sql_strs a);
+      (match nparams with
+       | Some k -> if sql_params a <> k || n <> k then fail "C02" (which ^ ":placeholders-as-read-by-PostgreSQL-differ-from-parameters") input ([("sql", sql); ("params", string_of_int k)] @ kcls)
+       | None -> ())
+
+(* ---------- C04 (a), (b): placeholders and parameters ---------- *)
+let rec values_lr (e : expr) : value list =   (* the query's values in left-to-right order, as parameters: patterns translated, unbounded ends omitted, columns excluded *)
+  match e with
+  | E (l, op, r, _, _) ->
+    (match op with
+     | Literal -> (match l with VCol _ -> [] | VStr s when string_of_chars s = "*" -> [] | VNil -> [] | v -> [v])
+     | Wild | Regexp -> (match l with VStr s when string_of_chars s = "*" -> [] | v -> [v])
+     | Like ->
+        let lv = values_v l in
+        let rv = (match r with
+          | VExp (E (VStr s, _, _, _, _)) ->
+              let t = string_of_chars s in
+              let is_re = String.length t >= 2 && t.[0] = '/' && t.[String.length t - 1] = '/' in
+              [VStr (chars_of_string (if is_re then t else replace_all (replace_all t '*' "%") '?' "_"))]
+          | v -> values_v v) in
+        lv @ rv
+     | _ -> values_v l @ values_v r)
+and values_v (v : value) : value list =
+  match v with
+  | VExp e -> values_lr e
+  | VList l -> List.concat_map values_lr l
+  | VBound (a, b, _) -> values_v a @ values_v b
+  | _ -> []
+
+let check_params (x : qobs) input (e : expr) =
+  let o = x.o in
+  if not (is_bad o.(5)) && not (is_bad o.(6)) then begin
+    checked "C04";
+    let has_numeric_range_field = exists_node (fun n -> match n with E (VExp (E ((VInt _ | VFloat _), _, _, _, _)), Range, _, _, _) -> true | _ -> false) e in
+    let has_quoted_star = exists_node (fun n -> match n with E (VStr s, Literal, _, _, _) -> string_of_chars s = "*" | _ -> false) e in
+    let cls = if has_numeric_range_field then [("class", "K13")] else if has_quoted_star then [("class", "K6")] else [] in
+    if eflag o.(5) = "|0" then begin
+      nontrivial "C04";
+      if eflag o.(6) <> "|0" then fail "C04" "inline-succeeds-but-parameterized-fails" input ([("inline", o.(5)); ("parameterized", o.(6))] @ cls)
+    end;
+    if eflag o.(6) = "|0" then begin
+      match xtext o.(6) with
+      | Some sql ->
+          let ps = params_of o.(6) in
+          let np = if ps = "" then 0 else List.length (String.split_on_char ',' ps) in
+          if int_of_nat (qcnt false (chars_of_string sql)) <> np then
+            fail "C04" "placeholder-count-differs-from-parameter-count" input ([("sql", sql); ("params", ps)] @ cls);
+          let want = String.concat "," (List.map show_value (values_lr e)) in
+          if want <> ps then fail "C04" "parameters-are-not-the-values-in-order" input ([("expected", want); ("params", ps); ("sql", sql)] @ cls)
+      | None -> ()
+    end
+  end
+
+(* ---------- C06: the tree re-derives the token sequence ---------- *)
+let check_derivation (x : qobs) input (e : expr) =
+  checked "C06"; nontrivial "C06";
+  let toks = List.filter_map (fun s -> try Some (parse_tok s) with _ -> None) (String.split_on_char ' ' x.o.(0)) in
+  let df = x.df in
+  (* every term token is exactly one leaf, in order, with its typed value (number tokens after ~ and ^ become the node's number) *)
+  let leaves = leaves_e e in
+  let as_col (l : expr) = match l with E (VStr s, (Literal | Wild | Regexp), r, b, f) -> E (VCol s, Literal, r, b, f) | l -> l in
+  let is_df_col (l : expr) = match l with E (VCol c, Literal, _, _, _) -> df <> "" && string_of_chars c = df | _ -> false in
+  let is_num (l : expr) = match l with E ((VInt _ | VFloat _), Literal, _, _, _) -> true | _ -> false in
+  (* prev = type of the last token that is not an opening parenthesis *)
+  let rec matchup (ts : token list) (ls : expr list) (prev : toktype option) : string option =
+    match ts with
+    | [] -> if ls = [] then None else Some "tree-has-a-leaf-without-a-source-token"
+    | t :: rest ->
+      if List.mem t.typ [TLiteral; TQuoted; TRegexp] then begin
+        let lit = parse_literal orc t in
+        (* the number of a fuzzy / boost node is not a leaf *)
+        if (prev = Some TTilde || prev = Some TCarrot) && is_num lit then matchup rest ls (Some t.typ) else
+        match ls with
+        | l :: ls' when l = lit -> matchup rest ls' (Some t.typ)
+        | l :: l2 :: ls' when is_df_col l && l2 = lit -> matchup rest ls' (Some t.typ)   (* the injected default field, then the term *)
+        | l :: ls' when l = as_col lit -> matchup rest ls' (Some t.typ)
+        | l :: ls' when is_df_col l -> matchup ts ls' prev
+        | _ -> Some "term-token-is-not-the-next-leaf"
+      end else matchup rest ls (if t.typ = TLParen then prev else Some t.typ) in
+  let df_occurs = df <> "" && List.exists (fun (t : token) -> match parse_literal orc t with E (VStr s, _, _, _, _) -> string_of_chars s = df | _ -> false)
+                                     (List.filter (fun (t : token) -> List.mem t.typ [TLiteral; TQuoted; TRegexp]) toks) in
+  (match (if df_occurs then None else matchup toks leaves None) with
+   | Some why -> fail "C06" why input [("tree", show_expr e); ("tokens", x.o.(0))]
+   | None -> ());
+  (* operator tokens are consumed by nodes of the matching kind: counts per kind *)
+  let count_tok ty = List.length (List.filter (fun (t : token) -> t.typ = ty) toks) in
+  let rec count_op p (e : expr) : int = (if p e then 1 else 0) + (match e with E (l, _, r, _, _) -> cv p l + cv p r)
+  and cv p v = match v with VExp e -> count_op p e | VList l -> List.fold_left (fun n x -> n + count_op p x) 0 l | VBound (a, b, _) -> cv p a + cv p b | _ -> 0 in
+  let opn o = count_op (fun e -> match e with E (_, op, _, _, _) -> op = o) e in
+  let chk name toks_n nodes_n = if toks_n <> nodes_n then fail "C06" ("operator-tokens-vs-nodes:" ^ name) input [("tokens", string_of_int toks_n); ("nodes", string_of_int nodes_n); ("tree", show_expr e)] in
+  chk "OR" (count_tok TOr) (opn Or + (* value lists absorb their ORs *) count_op (fun e -> false) e +
+            (let rec lists (e : expr) = (match e with E (VList l, List, _, _, _) -> List.length l - 1 | _ -> 0) + (match e with E (l, _, r, _, _) -> lv l + lv r)
+             and lv v = match v with VExp e -> lists e | VList l -> List.fold_left (fun n x -> n + lists x) 0 l | VBound (a, b, _) -> lv a + lv b | _ -> 0 in lists e));
+  chk "NOT" (count_tok TNot) (opn Not);
+  chk "+" (count_tok TPlus) (opn Must);
+  chk "-" (count_tok TMinus) (opn MustNot);
+  chk "~" (count_tok TTilde) (opn Fuzzy);
+  chk "^" (count_tok TCarrot) (opn Boost);
+  chk "TO" (count_tok TTO) (opn Range);
+  chk "[{" (count_tok TLSquare + count_tok TLCurly) (opn Range);
+  chk "]}" (count_tok TRSquare + count_tok TRCurly) (opn Range);
+  if count_tok TLParen <> count_tok TRParen then fail "C06" "unbalanced-parentheses-accepted" input [("tokens", x.o.(0))];
+  (* explicit AND tokens are a lower bound for AND nodes (juxtaposition adds more) *)
+  if count_tok TAnd > opn And then fail "C06" "operator-tokens-vs-nodes:AND" input [("tree", show_expr e)]
+
 (* ---------------------------------------------------------------------------------------------------------- *)
 let check_single (x : qobs) input =
   let o = x.o in
@@ -88,6 +276,22 @@ let check_single (x : qobs) input =
      | Some s -> if eflag o.(9) = "|1" && s <> "" then fail "C10" "ToParameterizedPostgres-sql-with-error" input [("observed", s)]
      | None -> ())
   end;
+  (* ---- C02, C04, C06 on the returned tree / SQL texts ---- *)
+  (match tree with
+   | Some t ->
+       (match (try Some (parse_tree t) with Unmodelled _ -> None) with
+        | Some e -> check_params x input e; check_derivation x input e
+        | None -> ())
+   | None -> ());
+  let kcls = match tree with
+    | Some t -> (match (try Some (parse_tree t) with Unmodelled _ -> None) with
+        | Some e when exists_node (fun n -> match n with E (VExp (E ((VInt _ | VFloat _), _, _, _, _)), Range, _, _, _) -> true | _ -> false) e -> [("class", "K13")]
+        | _ -> [])
+    | None -> [] in
+  (if not (is_bad o.(8)) && eflag o.(8) = "|0" then match xtext o.(8) with Some sql -> check_sql "inline" x input sql None kcls | None -> ());
+  (if not (is_bad o.(9)) && eflag o.(9) = "|0" then match xtext o.(9) with
+     | Some sql -> let ps = params_of o.(9) in check_sql "parameterized" x input sql (Some (if ps = "" then 0 else List.length (String.split_on_char ',' ps))) kcls
+     | None -> ());
   (* ---- C16 (last clause): a lexical error makes Parse fail ---- *)
   let toks = String.split_on_char ' ' o.(0) in
   (match List.rev toks with
@@ -107,7 +311,7 @@ let check_single (x : qobs) input =
    | None -> ());
   (* ---- C12: JSON round trip of every tree Parse returns for a valid UTF-8 query ---- *)
   (match tree with
-   | Some t when valid_utf8 x.q ->
+   | Some t when valid_utf8 x.q && valid_utf8 x.df ->
        checked "C12";
        let e = (try Some (parse_tree t) with Unmodelled _ -> None) in
        let cls = match e with Some e when has_int_valued_float e -> [("class", "K12")] | _ -> [] in
@@ -203,7 +407,7 @@ let check_rel (x : qobs) input =
        | Some g, Some "a" -> Hashtbl.replace pending (rel ^ "/" ^ g) x
        | Some g, Some "b" ->
            (match Hashtbl.find_opt pending (rel ^ "/" ^ g) with
-            | Some a -> Hashtbl.remove pending (rel ^ "/" ^ g); check_pair rel a x
+            | Some a -> Hashtbl.remove pending (rel ^ "/" ^ g); extra_case := a.line; check_pair rel a x; extra_case := ""
             | None -> ())
        | _ -> ())
   | Some "C08q" | Some "C08e" ->
